@@ -95,6 +95,7 @@ class ScopeChecker:
         self.star_imports = [s for s in ast.walk(tree) if isinstance(s, ast.ImportFrom) and any(a.name == "*" for a in s.names)]
         self.unbound: List[Tuple[str, ast.AST]] = []
         self.global_reads = 0
+        self.global_read_nodes: List[Tuple[str, ast.AST]] = []
 
     def run(self):
         self._block(self.tree.body, [("module", self.module_bound)])
@@ -110,10 +111,14 @@ class ScopeChecker:
             if kind == "class" and i != len(scopes) - 1:
                 continue
             if name in names:
+                if kind == "module":
+                    self.global_reads += 1
+                    self.global_read_nodes.append((name, node))
                 return
         self.global_reads += 1
         if name in BUILTINS:
             return
+        self.global_read_nodes.append((name, node))
         if self.star_imports:
             return
         self.unbound.append((name, node))
@@ -234,6 +239,28 @@ def unbound_globals(tree) -> Tuple[List[Tuple[str, ast.AST]], Set[str], int]:
     sc = ScopeChecker(tree)
     un = sc.run()
     return un, sc.module_bound, sc.global_reads
+
+
+def module_bindings(tree) -> List[Tuple[str, ast.AST]]:
+    """(name, binding statement) for every module-level binding, flow-insensitively (inside if/try/with too)"""
+    out: List[Tuple[str, ast.AST]] = []
+
+    def visit(body):
+        for st in body:
+            names: Set[str] = set()
+            bound_in_block([st], names, descend_compound=False)
+            for n in names:
+                out.append((n, st))
+            if isinstance(st, (ast.FunctionDef, ast.AsyncFunctionDef, ast.ClassDef)):
+                continue
+            for f in ("body", "orelse", "finalbody"):
+                b = getattr(st, f, None)
+                if isinstance(b, list) and b and isinstance(b[0], ast.stmt):
+                    visit(b)
+            for h in getattr(st, "handlers", []) or []:
+                visit(h.body)
+    visit(tree.body)
+    return out
 
 
 def dunder_all(tree) -> List[Tuple[str, ast.AST]]:
